@@ -49,7 +49,7 @@ REGISTRY = {
                      (A + "NoCrashThm", "Api.C03_no_crash"), (A + "NoCrashThm", "Api.C03_no_crash_json"), (A + "NoCrashThm", "Api.no_crash"),
                      (A + "NoCrashThm", "Api.jsonX_of_json"), (A + "NoCrashThm", "Api.C03_crash_counterexamples"),
                      (A + "RecLockThm", "Api.Rec.memo_keyed_by_default_conversion"), (A + "RecMemoThm", "Api.Rec.memo_history_invisible"), (A + "RecMemoThm", "Api.Rec.shared_memo_counterexample"),
-                     (A + "RecSeq", "Api.Rec.early_write_counterexample"), (A + "RecLockThm", "Api.Rec.visit_pinned"), (A + "RecSoundThm", "Api.Rec.true_sound")],
+                     (A + "RecSeq", "Api.Rec.early_write_counterexample"), (A + "RecLockThm", "Api.Rec.visit_pinned"), (A + "RecSoundThm", "Api.Rec.true_sound"), (A + "RecDepthThm", "Api.Rec.analysis_depth_bounded")],
         "partial": "no-crash proved in strict mode on Ty.accU (unions of any shape at any depth) without uniqueItems for every datum of Py.jsonX: JSON containers with string keys whose leaves may be "
                    "any object that is not an instance of the JSON classes (tuples, bytes, ...), and likewise for the tree built with the default coercer (no_crashC); non-string keys, JSON-class subclasses and purity "
                    "(input not modified) are decided by the correspondence / harness only; no RecursionError while a method is compiled: an answer True of the recursion analysis is "
@@ -240,7 +240,7 @@ REGISTRY["C20"] = {
                  (A + "Rec", "Api.Rec.lockInv_run"), (A + "Rec", "Api.Rec.C20_locked_racy_schedule_ok"),
                  (A + "RecSeq", "Api.Rec.early_write_counterexample"), (A + "RecSeq", "Api.Rec.g1_repaired_exact"), (A + "RecLockThm", "Api.Rec.visit_pinned"),
                  (A + "RecSoundThm", "Api.Rec.step_sound"), (A + "RecSoundThm", "Api.Rec.true_sound"), (A + "RecSoundThm", "Api.Rec.true_sound_concurrent"),
-                 (A + "RecSoundThm", "Api.Rec.acyclic_all_false"), (A + "RecSoundThm", "Api.Rec.onCycleB_sound"), (A + "RecSeq", "Api.Rec.wrong_false_overflows"), (A + "RecSeq", "Api.Rec.wrong_false_overflows_flag"), (A + "RecCompileThm", "Api.Rec.compileF_bound_irrelevant")],
+                 (A + "RecSoundThm", "Api.Rec.acyclic_all_false"), (A + "RecSoundThm", "Api.Rec.onCycleB_sound"), (A + "RecSeq", "Api.Rec.wrong_false_overflows"), (A + "RecSeq", "Api.Rec.wrong_false_overflows_flag"), (A + "RecCompileThm", "Api.Rec.compileF_bound_irrelevant"), (A + "RecDepthThm", "Api.Rec.analysis_depth_bounded")],
     "partial": "the interleaving model covers the recursion analysis (the shared recursion cache): a race counterexample for the unsynchronised protocol and "
                "mutual exclusion of the locked protocol for every graph and schedule; soundness of the analysis (an answer True is a type that reaches itself: every graph, "
                "every history of calls, and two checkers under every schedule, locked or not); the converse (an answer False is a type on no cycle - the direction of row 96) is not proved: "
